@@ -26,6 +26,7 @@ import os
 FILES = [
     'cssutils/util.py',
     'cssutils/css/cssrule.py',
+    'cssutils/css/cssrulelist.py',
     'cssutils/css/cssstylesheet.py',
     'cssutils/css/csscharsetrule.py',
     'cssutils/css/csscomment.py',
@@ -98,7 +99,7 @@ PURE_SELF = {
 # methods that change the receiver in place (list / Seq / dict API)
 MUTATING = {'append', 'appendItem', 'insert', 'extend', 'pop', 'remove', 'clear', 'update', 'replace', 'rstrip',
             'appendToVal', 'sort', 'reverse', 'setdefault'}
-PURE_METHODS = {'rulesOfType', 'items', 'keys', 'values', 'get', 'index', 'count', 'startswith', 'endswith', 'lower',
+PURE_METHODS = {'_setFetcher', 'rulesOfType', 'items', 'keys', 'values', 'get', 'index', 'count', 'startswith', 'endswith', 'lower',
                 'upper', 'strip', 'join', 'split', 'format', 'findall', 'copy', 'prefixForNamespaceURI', 'item',
                 'getProperties', 'getProperty', 'getPropertyValue', '_getUsedUris', '__iter__', 'encode', 'decode',
                 'group', 'match', 'search', 'sub'}
@@ -128,9 +129,46 @@ CHILD_CLASSES = {('Property', 'seqs[1]'): 'PropertyValue'}
 FIELD_METHOD_REDIRECT = {('_cssRules', 'append'): 'insertRule', ('_cssRules', 'extend'): 'insertRule'}
 # grammar objects for ProdParser: building them parses nothing
 import re as _re
-PURE_CTOR_RE = _re.compile(r'^(Prod|Sequence|Choice|Seq|Item|New|PreDef\.\w+|_\w+Prod|MediaQueryValueProd|'
+PURE_CTOR_RE = _re.compile(r'^(\w*Error|\w*Err|\w*Exception|xml\.dom\.\w+|Prod|Sequence|Choice|Seq|Item|New|PreDef\.\w+|_\w+Prod|MediaQueryValueProd|'
                            r'cssutils\.css\.value\.MediaQueryValueProd|cssutils\.util\.Seq|_SimpleNamespaces|'
                            r'_Namespaces|cssutils\.css\.CSSRuleList|CSSRuleList)$')
+# facts about `self` that hold for the objects the public API hands out (stated as assumptions in the evidence):
+# Property objects with `_mediaQuery=True` are built only inside MediaQuery parsing (mediaquery.py / value.py)
+INITIAL_FACTS = {'Property': {'self._mediaQuery': False}}
+# types of locals the evaluator cannot see: (file, function, local) -> tags
+TYPE_HINTS = {}
+# statements assumed never to raise a DOM exception, with the reason; each is *checked* by the trace correspondence
+# (an observed exception right after such a statement is a trace the script does not admit -> disagreement)
+ASSUME_NORAISE = {
+    ('cssutils/css/cssstylesheet.py', '_setCssText', 'self._cleanNamespaces()'):
+        'after a well-formed parse no two @namespace rules share a prefix (namespacerule callback merges them), '
+        'so _cleanNamespaces only deletes rules whose URI is declared again later: deleteRule cannot refuse',
+    ('cssutils/util.py', '__setitem__', 'rule.prefix = prefix'):
+        'the prefix assigned is the prefix the rule was found by: a valid IDENT, and the rule passed the guard',
+    ('cssutils/css/cssimportrule.py', '_setCssText', "self.atkeyword = new['keyword']"):
+        'the keyword is the IMPORT_SYM token just matched; it normalises to @import',
+    ('cssutils/css/cssnamespacerule.py', '_setCssText', "self.atkeyword = new['keyword']"):
+        'the keyword is the NAMESPACE_SYM token just matched; it normalises to @namespace',
+    ('cssutils/css/csspagerule.py', '_setCssText', 'self.cssRules.append(r)'):
+        'r is a MarginRule object built by __parseMarginAndStyle (csspagerule.py:261-276); CSSPageRule.insertRule '
+        'accepts a MarginRule object at the end of a fresh list without parsing anything',
+    ('cssutils/css/csspagerule.py', '__delitem__', 'self.deleteRule(r)'):
+        'r was just taken from self.cssRules and the object is past its read-only guard only if not read-only; '
+        'deleteRule(rule object in the list) finds it',
+    ('cssutils/css/marginrule.py', '_setCssText', "self.margin = store['margin'].value"):
+        'the stored token matched the production "@ margin", whose test is exactly _setMargin\'s',
+    ('cssutils/css/cssstyledeclaration.py', 'setProperty', 'property.priority = newp.priority'):
+        'newp.priority was accepted by the same setter when newp was built',
+    ('cssutils/stylesheets/mediaquery.py', '_setMediaText', 'self.mediaType = media_type.value'):
+        'the stored token matched the production media_type, whose test is exactly _setMediaType\'s',
+    ('cssutils/stylesheets/medialist.py', 'appendMedium', 'self.deleteMedium(newmt)'):
+        'guarded by `newmt in mts`: the medium is in the list, and the read-only guard was passed in __prepareset',
+}
+# fields that no public query reads (so a change is not an observable change), with the reason
+UNOBSERVABLE_FIELDS = {
+    'Property': {'__nametoken': 'only used as position for log messages (property.py:228-238, 506-533)'},
+    'MarginRule': {'_seq': 'never read: do_MarginRule serialises atkeyword and style only (serialize.py:675-714)'},
+}
 DOM_EXC_NAMES = {'DOMException', 'Exception', 'BaseException'}
 
 
@@ -312,7 +350,7 @@ def type_of_const(e):
     if v is None:
         return frozenset(['none'])
     if isinstance(v, bool):
-        return frozenset(['bool'])
+        return frozenset(['true' if v else 'false'])
     if isinstance(v, str):
         return frozenset(['str'])
     if isinstance(v, (int, float)):
@@ -384,9 +422,9 @@ def pure(s):
         return True
     if k == 'seq':
         return all(pure(x) for x in s[1])
-    if k in ('choice',):
+    if k in ('choice', 'loop'):
         return pure(s[1]) and pure(s[2])
-    if k in ('loop', 'scope'):
+    if k in ('scope',):
         return pure(s[1])
     if k in ('tryCatch', 'tryFinally'):
         return pure(s[1]) and pure(s[2])
@@ -405,8 +443,10 @@ def simplify(s):
             return ('skip',)
         return ('choice', a, b)
     if k == 'loop':
-        b = simplify(s[1])
-        return ('skip',) if pure(b) else ('loop', b)
+        b, e = simplify(s[1]), simplify(s[2])
+        if pure(b):
+            return e
+        return ('loop', b, e)
     if k == 'scope':
         b = simplify(s[1])
         if pure(b):
@@ -433,10 +473,8 @@ def has_kind(s, kind):
         return True
     if k == 'seq':
         return any(has_kind(x, kind) for x in s[1])
-    if k in ('choice', 'tryCatch', 'tryFinally'):
+    if k in ('choice', 'tryCatch', 'tryFinally', 'loop'):
         return has_kind(s[1], kind) or has_kind(s[2], kind)
-    if k == 'loop':
-        return has_kind(s[1], kind)
     if k == 'scope':
         return kind != 'ret' and has_kind(s[1], kind)
     if k == 'ifFlag':
@@ -448,6 +486,21 @@ def may_exc(s):
     return has_kind(s, 'raise') or has_kind(s, 'mayRaise') or has_kind(s, 'guard')
 
 
+def strip_raises(s):
+    k = s[0]
+    if k in ('raise', 'mayRaise', 'guard'):
+        return ('skip',)
+    if k == 'seq':
+        return seq([strip_raises(x) for x in s[1]])
+    if k in ('choice', 'tryCatch', 'tryFinally', 'loop'):
+        return (k, strip_raises(s[1]), strip_raises(s[2]))
+    if k in ('scope',):
+        return (k, strip_raises(s[1]))
+    if k == 'ifFlag':
+        return (k, s[1], strip_raises(s[2]), strip_raises(s[3]))
+    return s
+
+
 def written_fields(s, acc=None):
     acc = set() if acc is None else acc
     k = s[0]
@@ -456,10 +509,10 @@ def written_fields(s, acc=None):
     elif k == 'seq':
         for x in s[1]:
             written_fields(x, acc)
-    elif k in ('choice', 'tryCatch', 'tryFinally'):
+    elif k in ('choice', 'tryCatch', 'tryFinally', 'loop'):
         written_fields(s[1], acc)
         written_fields(s[2], acc)
-    elif k in ('loop', 'scope'):
+    elif k in ('scope',):
         written_fields(s[1], acc)
     elif k == 'ifFlag':
         written_fields(s[2], acc)
@@ -473,6 +526,8 @@ class Env:
         self.kinds, self.closures, self.stack, self.fn, self.uid, self.file = kinds, closures, stack, fn, uid, file
         self.flagnames = flag_names(fn) if fn is not None else set()
         self.last_save = {}
+        self.facts = {}          # 'self.attr' -> bool known on this path
+        self.nondom = []         # enclosing try blocks with non-DOM handlers: [types, flag, used]
         self.types = {}          # local name -> frozenset of type tags, absent = unknown
         self.dicts = {}          # (dict local, constant key) -> type tags or None
 
@@ -516,6 +571,7 @@ class Translator:
         self.uid = 0
         self.notes = []          # (where, text): conservative decisions worth reading
         self.deps = set()        # child mutators relied upon (class unknown: by name)
+        self.assumed = set()     # ASSUME_NORAISE entries that were applied
 
     def note(self, env, node, text):
         self.notes.append(('%s:%s' % (env.file, getattr(node, 'lineno', '?')), text))
@@ -558,6 +614,11 @@ class Translator:
             kinds[p] = k
         file = self.src.classes[cls_def].file
         e2 = Env(self, cls_obj, cls_def, prefix, kinds, closures, stack + [key], fn, self.uid, file)
+        if env is not None:
+            e2.facts = dict(env.facts)
+        else:
+            for c in self.src.mro(cls_obj):
+                e2.facts.update(INITIAL_FACTS.get(c, {}))
         kwtypes = kwtypes or {}
         defaults = dict(zip(params[::-1], [d for d in fn.args.defaults][::-1]))
         for i, p in enumerate(params):
@@ -595,9 +656,9 @@ class Translator:
                 return seq([('mayRaise',)] + [('mutate', f) for f in fields])
             if k == 'seq':
                 return ('seq', [go(x) for x in t[1]])
-            if k in ('choice', 'tryCatch', 'tryFinally'):
+            if k in ('choice', 'tryCatch', 'tryFinally', 'loop'):
                 return (k, go(t[1]), go(t[2]))
-            if k in ('loop', 'scope'):
+            if k in ('scope',):
                 return (k, go(t[1]))
             if k == 'ifFlag':
                 return (k, t[1], go(t[2]), go(t[3]))
@@ -610,9 +671,9 @@ class Translator:
             return s[1] == key
         if k == 'seq':
             return any(self.contains_rec(x, key) for x in s[1])
-        if k in ('choice', 'tryCatch', 'tryFinally'):
+        if k in ('choice', 'tryCatch', 'tryFinally', 'loop'):
             return self.contains_rec(s[1], key) or self.contains_rec(s[2], key)
-        if k in ('loop', 'scope'):
+        if k in ('scope',):
             return self.contains_rec(s[1], key)
         if k == 'ifFlag':
             return self.contains_rec(s[2], key) or self.contains_rec(s[3], key)
@@ -624,9 +685,9 @@ class Translator:
             return ('skip',)
         if k == 'seq':
             return ('seq', [self.drop_rec(x) for x in s[1]])
-        if k in ('choice', 'tryCatch', 'tryFinally'):
+        if k in ('choice', 'tryCatch', 'tryFinally', 'loop'):
             return (k, self.drop_rec(s[1]), self.drop_rec(s[2]))
-        if k in ('loop', 'scope'):
+        if k in ('scope',):
             return (k, self.drop_rec(s[1]))
         if k == 'ifFlag':
             return (k, s[1], self.drop_rec(s[2]), self.drop_rec(s[3]))
@@ -801,6 +862,24 @@ class Translator:
         if isinstance(t, ast.UnaryOp) and isinstance(t.op, ast.Not):
             v = self.static_test(t.operand, env)
             return None if v is None else (not v)
+        if isinstance(t, ast.Attribute):
+            return env.facts.get(ast.unparse(t))
+        if isinstance(t, ast.Name):
+            ty = env.types.get(t.id)
+            if ty is not None and ty and ty <= {'none', 'false'}:
+                return False
+            if ty is not None and ty == {'true'}:
+                return True
+            return None
+        if isinstance(t, ast.Compare) and len(t.ops) == 1 and isinstance(t.ops[0], (ast.Eq, ast.NotEq)):
+            v = self.type_const_compare(t.left, t.comparators[0], env)
+            if v is None:
+                v = self.type_const_compare(t.comparators[0], t.left, env)
+            if v is not None:
+                return v if isinstance(t.ops[0], ast.Eq) else (not v)
+            return None
+        if isinstance(t, ast.Constant):
+            return bool(t.value)
         if isinstance(t, ast.BoolOp):
             vs = [self.static_test(v, env) for v in t.values]
             if isinstance(t.op, ast.Or):
@@ -834,6 +913,23 @@ class Translator:
             return None
         return None
 
+    def type_const_compare(self, a, b, env):
+        """`x.type == y.SOME_RULE` when the class of x is known (cssrule.py type constants)"""
+        if not (isinstance(a, ast.Attribute) and a.attr == 'type' and isinstance(a.value, ast.Name)):
+            return None
+        if not (isinstance(b, ast.Attribute) and b.attr.isupper()):
+            return None
+        ty = env.types.get(a.value.id)
+        if ty is None or len(ty) != 1:
+            return None
+        tag = next(iter(ty))
+        if not tag.startswith('obj:') or tag[4:] not in self.src.classes:
+            return None
+        lk = self.src.lookup(tag[4:], 'type')
+        if lk is None or lk[0] != 'prop' or lk[2][0] is None or not lk[2][0].isupper():
+            return None
+        return lk[2][0] == b.attr
+
     def static_test_split(self, t, env):
         v = self.static_test(t, env)
         if v is not None:
@@ -854,7 +950,7 @@ class Translator:
         return None
 
     def tag_isinstance(self, tag, classes):
-        prim = {'str': 'str', 'tuple': 'tuple', 'list': 'list', 'dict': 'dict', 'bool': 'bool'}
+        prim = {'str': 'str', 'tuple': 'tuple', 'list': 'list', 'dict': 'dict', 'true': 'bool', 'false': 'bool'}
         out = False
         for c in classes:
             c = c.split('.')[-1]
@@ -863,7 +959,7 @@ class Translator:
                     return True
                 if prim.get(tag) == c:
                     return True
-                if tag == 'bool' and c == 'int':
+                if tag in ('true', 'false') and c == 'int':
                     return True
                 continue
             cls = tag[4:]
@@ -941,7 +1037,16 @@ class Translator:
             return s
         return seq([('mark', env.line(node)), s])
 
-    def stmt(self, st, env):  # noqa: C901
+    def stmt(self, st, env):
+        r = self.stmt0(st, env)
+        if isinstance(st, (ast.Expr, ast.Assign)) and env.fn is not None:
+            key = (env.file, env.fn.name, ast.unparse(st))
+            if key in ASSUME_NORAISE:
+                self.assumed.add(key)
+                r = strip_raises(r)
+        return r
+
+    def stmt0(self, st, env):  # noqa: C901
         if isinstance(st, ast.FunctionDef):
             env.closures[st.name] = st
             return ('skip',)
@@ -973,6 +1078,13 @@ class Translator:
             return seq([self.marked(st, env, seq(pre)), ('ret',)])
         if isinstance(st, ast.Raise):
             pre = self.eff(st.exc, env) if st.exc is not None else []
+            if st.exc is not None:
+                d = dotted(st.exc.func if isinstance(st.exc, ast.Call) else st.exc) or ''
+                for h in reversed(env.nondom):
+                    if d.split('.')[-1] in h[0]:
+                        # a non-DOM exception caught by an enclosing handler of this function: a local jump
+                        h[2] = True
+                        return seq(pre + [('setFlag', h[1], True), ('ret',)])
             return self.marked(st, env, seq(pre + [('raise',)]))
         if isinstance(st, ast.Break):
             return ('brk',)
@@ -997,12 +1109,14 @@ class Translator:
             raise Unsupported('with statement at %s:%d' % (env.file, st.lineno))
         raise Unsupported('statement %s at %s:%d' % (type(st).__name__, env.file, st.lineno))
 
-    def branch(self, stmts, env):
+    def branch(self, stmts, env, facts=None):
         """translate a branch with a copy of the local kinds; returns (script, kinds after)"""
-        saved, saved_t = dict(env.kinds), dict(env.types)
+        saved, saved_t, saved_f = dict(env.kinds), dict(env.types), dict(env.facts)
+        if facts:
+            env.facts.update(facts)
         s = self.block(stmts, env)
         after = (env.kinds, env.types)
-        env.kinds, env.types = saved, saved_t
+        env.kinds, env.types, env.facts = saved, saved_t, saved_f
         return s, after
 
     def merge_env(self, env, a, b):
@@ -1036,10 +1150,37 @@ class Translator:
             return seq([pre, self.block(st.body, env)])
         if verdict is False:
             return seq([pre, self.block(st.orelse, env)])
-        a, ka = self.branch(st.body, env)
-        b, kb = self.branch(st.orelse, env)
+        ft, ff = self.test_facts(st.test)
+        a, ka = self.branch(st.body, env, ft)
+        b, kb = self.branch(st.orelse, env, ff)
         self.merge_env(env, ka, kb)
         return seq([pre, choice(a, b)])
+
+    @staticmethod
+    def test_facts(t):
+        """facts about plain `self.x` attributes implied by the test being true / false"""
+        def plain(e):
+            return isinstance(e, ast.Attribute) and isinstance(e.value, ast.Name) and e.value.id == 'self'
+        tr, fa = {}, {}
+        neg = False
+        if isinstance(t, ast.UnaryOp) and isinstance(t.op, ast.Not):
+            t, neg = t.operand, True
+        if plain(t):
+            tr[ast.unparse(t)] = True
+            fa[ast.unparse(t)] = False
+        elif isinstance(t, ast.BoolOp) and isinstance(t.op, ast.And):
+            for v in t.values:
+                if plain(v):
+                    tr[ast.unparse(v)] = True
+                elif isinstance(v, ast.UnaryOp) and isinstance(v.op, ast.Not) and plain(v.operand):
+                    tr[ast.unparse(v.operand)] = False
+        elif isinstance(t, ast.BoolOp) and isinstance(t.op, ast.Or):
+            for v in t.values:
+                if plain(v):
+                    fa[ast.unparse(v)] = False
+                elif isinstance(v, ast.UnaryOp) and isinstance(v.op, ast.Not) and plain(v.operand):
+                    fa[ast.unparse(v.operand)] = True
+        return (fa, tr) if neg else (tr, fa)
 
     def loop_stmt(self, st, env):
         if isinstance(st, ast.For):
@@ -1060,13 +1201,16 @@ class Translator:
         self.merge_env(env, before, env.kinds)
         body = self.block(st.body, env)
         self.merge_env(env, before, env.kinds)
-        orelse = self.block(st.orelse, env) if st.orelse else ('skip',)
-        return seq([pre, ('loop', body), choice(orelse, ('skip',)) if st.orelse else ('skip',)])
+        if not st.orelse:
+            return seq([pre, ('loop', body, ('skip',))])
+        # for/while ... else: the else block runs iff the loop was not left by `break`
+        orelse = self.block(st.orelse, env)
+        return seq([pre, ('loop', body, orelse)])
 
     def bind_names(self, target, kind, env):
         if isinstance(target, ast.Name):
             env.kinds[target.id] = kind
-            env.types[target.id] = None
+            env.types[target.id] = TYPE_HINTS.get((env.file, env.fn.name if env.fn else '', target.id))
         elif isinstance(target, (ast.Tuple, ast.List)):
             for e in target.elts:
                 self.bind_names(e, kind, env)
@@ -1143,6 +1287,9 @@ class Translator:
         H = choices(hs)
         seen = set()
         parts = []    # (script, can raise the caught type before its own effect)
+        self.uid += 1
+        jump = [{t.split('.')[-1] for t in types}, '%d:jumped' % self.uid, False]
+        env.nondom.append(jump)
         for st in body:
             if isinstance(st, ast.Raise) and st.exc is not None:
                 d = dotted(st.exc.func if isinstance(st.exc, ast.Call) else st.exc) or ''
@@ -1152,6 +1299,7 @@ class Translator:
             can = self.can_raise_nondom(st, types, seen)
             s = self.stmt(st, env)
             parts.append((s, can))
+        env.nondom.pop()
         tail = self.block(orelse, env) if orelse else ('skip',)
         for k in kinds_after:
             self.merge_env(env, env.kinds, k)
@@ -1169,6 +1317,13 @@ class Translator:
                 r = choice(H, seq([s, r]))
             else:
                 r = seq([s, r])
+        if jump[2]:
+            for st in body:
+                for n in ast.walk(st):
+                    if isinstance(n, ast.Return):
+                        raise Unsupported('%s:%d: return inside a try body with a local exception jump'
+                                          % (env.file, n.lineno))
+            r = seq([('setFlag', jump[1], False), ('scope', r), ('ifFlag', jump[1], H, ('skip',))])
         return r
 
     @staticmethod
@@ -1202,7 +1357,8 @@ class Translator:
                     env.last_save[f] = t.id
             env.kinds[t.id] = kind
             ty = self.type_of(value, env) if value is not None else None
-            env.types[t.id] = ty
+            env.types[t.id] = ty if ty is not None else \
+                TYPE_HINTS.get((env.file, env.fn.name if env.fn else '', t.id))
             if t.id in env.flagnames:
                 fl = env.flag(t.id)
                 if isinstance(value, ast.Constant) and isinstance(value.value, bool):
@@ -1258,6 +1414,8 @@ class Translator:
                 self.collect_saves(k, acc)
 
     def write_self(self, t, ops, kind, env, value=None):
+        if len(ops) == 1:
+            env.facts.pop('self.' + ops[0][1], None)
         # property with a setter?
         if len(ops) == 1:
             lk = self.src.lookup(env.cls_obj, ops[0][1])
@@ -1355,7 +1513,7 @@ class Translator:
             else:
                 inner += self.eff(e.elt, env)
             if inner:
-                out.append(('loop', seq(inner)))
+                out.append(('loop', seq(inner), ('skip',)))
             return out
         if isinstance(e, ast.IfExp):
             return self.eff(e.test, env) + [choice(seq(self.eff(e.body, env)), seq(self.eff(e.orelse, env)))]
@@ -1509,7 +1667,8 @@ class Translator:
         if not rest and (base, m) in FIELD_METHOD_REDIRECT:
             lk = self.src.lookup(env.cls_obj, FIELD_METHOD_REDIRECT[(base, m)])
             ks = [self.kind_of(a, env) for a in e.args]
-            return [self.inline(env, env.cls_obj, lk[1].name, lk[2], ks, {})]
+            ts = [self.type_of(a, env) for a in e.args]
+            return [self.inline(env, env.cls_obj, lk[1].name, lk[2], ks, {}, argtypes=ts)]
         if not rest and child:
             lk = self.src.lookup(child, m)
             if lk and lk[0] == 'method' and m not in PURE_SELF and m not in PURE_METHODS:
@@ -1558,7 +1717,7 @@ class Translator:
             else:
                 raise Unsupported('%s:%d: callback %s' % (env.file, e.lineno, key))
         cbs.append(('mayRaise',))
-        return ('loop', choices(cbs))
+        return ('loop', choices(cbs), ('skip',))
 
 
 # ---------------------------------------------------------------------------------------------------
@@ -1568,11 +1727,11 @@ def show(s, ind=0):
     k = s[0]
     if k == 'seq':
         return '\n'.join(show(x, ind) for x in s[1])
-    if k in ('choice', 'tryCatch', 'tryFinally'):
+    if k in ('choice', 'tryCatch', 'tryFinally', 'loop'):
         names = {'choice': ('either', 'or'), 'tryCatch': ('try', 'except DOMException'),
-                 'tryFinally': ('try', 'finally')}[k]
+                 'tryFinally': ('try', 'finally'), 'loop': ('loop', 'else')}[k]
         return '%s%s:\n%s\n%s%s:\n%s' % (p, names[0], show(s[1], ind + 1), p, names[1], show(s[2], ind + 1))
-    if k in ('loop', 'scope'):
+    if k in ('scope',):
         return '%s%s:\n%s' % (p, k, show(s[1], ind + 1))
     if k == 'ifFlag':
         return '%sif %s:\n%s\n%selse:\n%s' % (p, s[1], show(s[2], ind + 1), p, show(s[3], ind + 1))
@@ -1583,9 +1742,9 @@ def size(s):
     k = s[0]
     if k == 'seq':
         return 1 + sum(size(x) for x in s[1])
-    if k in ('choice', 'tryCatch', 'tryFinally'):
+    if k in ('choice', 'tryCatch', 'tryFinally', 'loop'):
         return 1 + size(s[1]) + size(s[2])
-    if k in ('loop', 'scope'):
+    if k in ('scope',):
         return 1 + size(s[1])
     if k == 'ifFlag':
         return 1 + size(s[2]) + size(s[3])
@@ -1642,10 +1801,10 @@ def number(body):
         elif k == 'seq':
             for x in s[1]:
                 go(x)
-        elif k in ('choice', 'tryCatch', 'tryFinally'):
+        elif k in ('choice', 'tryCatch', 'tryFinally', 'loop'):
             go(s[1])
             go(s[2])
-        elif k in ('loop', 'scope'):
+        elif k in ('scope',):
             go(s[1])
     go(body)
     return ({f: i for i, f in enumerate(sorted(fields))}, {f: i for i, f in enumerate(sorted(flags))})
@@ -1667,9 +1826,9 @@ def lean_term(s, fi, gi, ind=2):
     if k == 'seq':
         items = [lean_term(x, fi, gi, ind + 2) for x in s[1]]
         return 'seqs [\n' + ',\n'.join(p + '  ' + it for it in items) + ']'
-    if k in ('choice', 'tryCatch', 'tryFinally'):
+    if k in ('choice', 'tryCatch', 'tryFinally', 'loop'):
         return '.%s\n%s  (%s)\n%s  (%s)' % (k, p, lean_term(s[1], fi, gi, ind + 2), p, lean_term(s[2], fi, gi, ind + 2))
-    if k in ('loop', 'scope'):
+    if k in ('scope',):
         return '.%s\n%s  (%s)' % (k, p, lean_term(s[1], fi, gi, ind + 2))
     if k == 'ifFlag':
         return '.ifFlag %d\n%s  (%s)\n%s  (%s)' % (gi[s[1]], p, lean_term(s[2], fi, gi, ind + 2), p,
@@ -1694,9 +1853,9 @@ def numbered(body, fi, gi):
         return [k, gi[body[1]], numbered(body[2], fi, gi), numbered(body[3], fi, gi)]
     if k == 'seq':
         return [k, [numbered(x, fi, gi) for x in body[1]]]
-    if k in ('choice', 'tryCatch', 'tryFinally'):
+    if k in ('choice', 'tryCatch', 'tryFinally', 'loop'):
         return [k, numbered(body[1], fi, gi), numbered(body[2], fi, gi)]
-    if k in ('loop', 'scope'):
+    if k in ('scope',):
         return [k, numbered(body[1], fi, gi)]
     return list(body)
 
@@ -1723,7 +1882,13 @@ def generate(repo):
                      'deps': o['deps'], 'size': size(o['body'])})
     lines.append('/-- every extracted mutator script, with its fields -/')
     lines.append('def scripts : List Script := [')
-    lines.append(',\n'.join('  ⟨"%s", %s, %s⟩' % (r['name'], '[' + ', '.join(str(i) for i in sorted(r['fields'].values())) + ']',
+    for r in recs:
+        unobs = {}
+        for c in src.mro(r['cls']):
+            unobs.update(UNOBSERVABLE_FIELDS.get(c, {}))
+        r['observable'] = sorted(i for f, i in r['fields'].items() if f.split('.')[-1] not in unobs)
+        r['unobservable'] = {f: unobs[f.split('.')[-1]] for f in r['fields'] if f.split('.')[-1] in unobs}
+    lines.append(',\n'.join('  ⟨"%s", %s, %s⟩' % (r['name'], '[' + ', '.join(str(i) for i in r['observable']) + ']',
                                                 ident(r['name'])) for r in recs))
     lines.append(']\n')
     lines.append('/-- mutators the translator could not extract (none expected) -/')
